@@ -11,7 +11,8 @@ rm -rf $scr; mkdir -p /var/tmp/vr
 git -C /repo worktree add --detach $scr HEAD -q || exit 2
 trap 'git -C /repo worktree remove --force '$scr' 2>/dev/null; git -C /repo worktree prune' EXIT
 echo "--- demo on unchanged tree:"; (cd /tmp && PYTHONPATH=$scr timeout 900 /venv/bin/python $dst/demo.py >/dev/null 2>&1; echo "rc=$?")
-git -C $scr apply $dst/patch.diff || { echo "patch does not apply"; exit 2; }
+git -C $scr apply $dst/patch.diff 2>/dev/null || (cd $scr && patch -p1 -F3 -s < $dst/patch.diff) || { echo "patch does not apply"; exit 2; }
+git -C $scr diff -- yastn > $dst/patch.diff   # refreshed against the current HEAD
 echo "--- demo with patch:"; (cd /tmp && PYTHONPATH=$scr timeout 900 /venv/bin/python $dst/demo.py >/dev/null 2>&1; echo "rc=$?")
 cd /verif
 for id in "$@"; do
